@@ -26,7 +26,9 @@ Inductive tnode :=
 
 Record wtree := mk_wtree { wt_lang : N; wt_charset : N; wt_root : option tnode }.
 
-Inductive berr := BE_INTERNAL | BE_PARSE (e : perr).
+(* BE_NOT_ENOUGH_MEMORY: a wbxml_tree_add_* call returned NULL (the callbacks report every such failure with this
+   code since d107fc8; without allocation failure the only cause is a second root, which no parse produces) *)
+Inductive berr := BE_INTERNAL | BE_NOT_ENOUGH_MEMORY | BE_PARSE (e : perr).
 Inductive bres (A : Type) := BOk (a : A) | BErr (e : berr) | BFuel.
 Arguments BOk {A} a.
 Arguments BErr {A} e.
@@ -161,7 +163,7 @@ Definition add_to_current (st : bstate) (n : tnode) : bres bstate :=
     (* parent == NULL: only allowed while the tree has no root *)
     match b_root st with
     | None => BOk (mk_bstate (b_lang st) (b_charset st) [] (Some n))
-    | Some _ => BErr BE_INTERNAL
+    | Some _ => BErr BE_NOT_ENOUGH_MEMORY
     end
   | f :: up =>
     let f' := match f_cdata f with
@@ -176,7 +178,7 @@ Definition cb_start_element (t : tagname) (attrs : list (attrname * bytes)) (st 
   | [] =>
     match b_root st with
     | None => BOk (mk_bstate (b_lang st) (b_charset st) [mk_frame t attrs [] None] None)
-    | Some _ => BErr BE_INTERNAL            (* wbxml_tree_add_node refuses a second root *)
+    | Some _ => BErr BE_NOT_ENOUGH_MEMORY   (* wbxml_tree_add_node refuses a second root *)
     end
   | f :: up => BOk (mk_bstate (b_lang st) (b_charset st) (mk_frame t attrs [] None :: leave_cdata f :: up) (b_root st))
   end.
